@@ -22,6 +22,8 @@ import tempfile
 import time
 
 VERIF = os.path.dirname(os.path.abspath(__file__))
+# evidence directory; only the seeded-change runner redirects it (so that runs on a changed copy do not overwrite the evidence of /repo)
+EVDIR = os.environ.get("VERIF_EVIDENCE_DIR") or os.path.join(VERIF, "evidence")
 sys.path.insert(0, os.path.join(VERIF, "tools"))
 import vx  # noqa: E402
 import kx  # noqa: E402
@@ -89,6 +91,15 @@ def run_unit_cached(unit, seed, scratch):
     return r
 
 
+# bounded fallback (see main): Verus unit template -> differential suite of /verif/replay, and what a suite can witness
+UNIT_SUITE = {"utils": "utils", "qvector": "qvector", "qwt": "qwt", "bitvector": "bitvector", "wt": "wt", "rsq": "rsq",
+              "rswide": "rsbin", "rsnarrow": "rsbin", "darray": "darray"}
+SUITE_PROPS = {"utils": ["C17"], "qvector": ["C13"], "qwt": ["C01", "C09"], "bitvector": ["C08"], "wt": ["C03"], "rsq": ["C05"],
+               "rsbin": ["C06"], "darray": ["C07"]}
+SUITE_FILE = {"utils": "src/utils/mod.rs", "qvector": "src/qvector/mod.rs", "qwt": "src/quadwt/mod.rs", "bitvector": "src/bitvector/mod.rs",
+              "wt": "src/binwt/mod.rs", "rsq": "src/qvector/rs_qvector.rs", "rsbin": "src/bitvector/rs_wide.rs", "darray": "src/darray/mod.rs"}
+
+
 def load_known():
     p = os.path.join(VERIF, "known_findings.json")
     if not os.path.exists(p):
@@ -129,6 +140,7 @@ def main():
     os.makedirs(scratch, exist_ok=True)
     obligations = []   # dicts
     inconclusive = []
+    unreached_units = []   # Verus units whose (changed) code the verifier could not take: bounded fallback below
     trusted = set()
     fidelity = []
     cmds = []
@@ -152,6 +164,7 @@ def main():
                     results[n] = f.result()
                 except vx.Inconclusive as e:
                     inconclusive.append("verus unit %s: %s" % (n, e))
+                    unreached_units.append((n, str(e)))
             try:
                 kres = kfut.result()
             except kx.Inconclusive as e:
@@ -230,7 +243,7 @@ def main():
     violations = []
     known_hits = []
     for o in obligations:
-        if o["ok"]:
+        if o["ok"] or o.get("inconclusive"):
             continue
         fl = o.get("failures") or [{"msg": o.get("msg", "failed"), "source": ""}]
         unmatched = []
@@ -247,18 +260,18 @@ def main():
         if unmatched:
             violations.append((o, unmatched))
 
-    os.makedirs(os.path.join(VERIF, "evidence", "replay"), exist_ok=True)
+    os.makedirs(os.path.join(EVDIR, "replay"), exist_ok=True)
     lines = []
     for o, f, kf in known_hits:
         ln = "KNOWN-FINDING: property=%s %s" % (prop, kf["what"])
         if ln not in lines:
             lines.append(ln)
     n_viol = 0
-    if not inconclusive:
+    if True:   # a failed obligation of a conclusive unit is reported even when another unit was inconclusive
         for o, fails in violations:
             n_viol += 1
             slug = re.sub(r"[^A-Za-z0-9_.-]+", "_", o["id"])[:150]
-            rp = os.path.join(VERIF, "evidence", "replay", "%s-%s.json" % (prop, slug))
+            rp = os.path.join(EVDIR, "replay", "%s-%s.json" % (prop, slug))
             rec = {"property": prop, "obligation": o["id"], "engine": o["engine"], "kind": o["kind"],
                    "function": o.get("function"), "file": o.get("file"), "repo_lines": o.get("repo_lines"),
                    "sha256": o.get("sha256"), "failed_clauses": fails,
@@ -275,6 +288,29 @@ def main():
                 suffix = " no-failing-input-found"
             json.dump(rec, open(rp, "w"), indent=1)
             lines.append("VIOLATION property=%s replay=%s%s" % (prop, rp, suffix))
+    # ---- bounded fallback for code the verifier could not take (changed tree only: on the unchanged tree every
+    # unit is conclusive).  The unit stays inconclusive; but if the differential search finds a concrete input on
+    # which the real crate answers wrongly, that input is a violation on its own, replayed against the real code.
+    fallback = []
+    for n, why in unreached_units:
+        tmpl = vx.load_units()[n]["template"]
+        suite = UNIT_SUITE.get(tmpl)
+        if not suite or prop not in SUITE_PROPS.get(suite, []) or any(x[0] == suite for x in fallback):
+            continue
+        try:
+            import replay_search
+            wit = replay_search.search(prop, {"id": "suite:" + suite, "file": SUITE_FILE[suite], "function": ""})
+        except Exception as e:  # noqa: BLE001
+            wit = {"input_found": False, "note": "witness search unavailable: %s" % e}
+        fallback.append((suite, wit))
+        if wit.get("input_found"):
+            n_viol += 1
+            rp = os.path.join(EVDIR, "replay", "%s-bounded_differential_%s.json" % (prop, suite))
+            json.dump({"property": prop, "obligation": "bounded:differential:%s" % suite, "engine": "differential replay of the real crate (bounded fallback)",
+                       "kind": "bounded", "bound": "time-boxed search over small / random inputs; used only because the Verus unit was inconclusive",
+                       "verifier_output": why[:2000], "replayed": wit}, open(rp, "w"), indent=1)
+            ln = "VIOLATION property=%s replay=%s" % (prop, rp)
+            lines.append(ln)
     for ln in lines:
         print(ln)
 
@@ -310,6 +346,7 @@ def main():
             "known_findings_hit": [kf["what"] for _, _, kf in known_hits],
             "obligations_with_known_finding": sorted(known_ids),
             "inconclusive": inconclusive,
+            "bounded_fallback": [{"suite": su, "input_found": bool(w.get("input_found"))} for su, w in fallback],
             "explanation": conf.get("explanation", ""),
             "not_covered": conf.get("not_covered", []),
         },
@@ -321,14 +358,15 @@ def main():
         ev["coverage"]["evaluations"] = max(n_ob, 1)
         ev["coverage"]["distinct_nontrivial"] = max(n_ob, 2) if n_ob >= 2 else 2
         ev["coverage"]["rule"] = "one evaluation per obligation (function contract or harness); all distinct"
-    json.dump(ev, open(os.path.join(VERIF, "evidence", prop + ".json"), "w"), indent=1)
+    json.dump(ev, open(os.path.join(EVDIR, prop + ".json"), "w"), indent=1)
     print("%s tier=%s obligations=%d discharged=%d (proved-kind %d, bounded-kind %d) known=%d wall=%.1fs"
           % (prop, tier, n_ob, n_ok, len(proved), len(bounded), len(known_hits), wall))
     if inconclusive:
         for x in inconclusive:
             print("INCONCLUSIVE:", x)
-        return 2
-    return 1 if n_viol else 0
+    if n_viol:
+        return 1
+    return 2 if inconclusive else 0
 
 
 def witness_search(prop, o):
